@@ -4,7 +4,7 @@ from __future__ import annotations
 import numpy as np
 
 from vlib import bd_checks
-from vlib.gen_matrix import kept_mask, library_input, problems
+from vlib.gen_matrix import frame_effective, frame_input, frame_matrices, kept_mask, library_input, problems
 from vlib.runner import Outcome
 
 ID = "C05"
@@ -27,7 +27,9 @@ BUDGET = {"quick": 1200, "thorough": 40000}
 SHRINK_SECONDS = {"quick": 40, "thorough": 200}
 RULE = (
     "case = vlib.gen_matrix.problems(hermitian=False, complex energies, asymmetric masks, safe_bias) plus a flag "
-    "'hermitian_input' (terms Hermitian, energies real: outputs must equal Hermitian mode). Non-trivial = perturbation "
+    "'hermitian_input' (terms Hermitian, energies real: outputs must equal Hermitian mode); a third of the numeric "
+    "problems are handed over in an oblique lab frame (H_k = R T_k R^-1, R a product of shears, blocks designated by the "
+    "biorthogonal pairs (R_i, L_i = R^-dagger_i); half of those with Hermitian lab-frame perturbations). Non-trivial = perturbation "
     "non-normal or hermitian_input, eliminated set non-empty and coupled, K >= 2, U_n != 0 at some order >= 2. Cases in "
     "the K1 class are counted in excluded_by_finding and are never counted as non-trivial."
 )
@@ -36,16 +38,29 @@ ASSUMPTIONS = [
     "K1 class predicate: some kept off-diagonal pair (i != j, S_ij) has E_i != E_j; in that class only inverse "
     "identities, gauge, all assertions at total order <= 1 and elimination at order 2 are enforced",
 ]
-REQUIRED_CLASSES = {"all": ["class=safe", "class=K1", "blocks=3", "params=2", "repr=sympy", "repr=sparse", "selection=mask", "hermitian-input", "complex-energies"]}
+REQUIRED_CLASSES = {"all": ["class=safe", "class=K1", "blocks=3", "params=2", "repr=sympy", "repr=sparse", "selection=mask", "hermitian-input", "complex-energies", "frame=oblique-pairs", "frame=oblique-pairs+lab-hermitian"]}
 
 
 def strategy(tier):
     from hypothesis import strategies as st
 
-    kw = dict(hermitian=False, complex_energy=True, safe_bias=True)
+    kw = dict(hermitian=False, complex_energy=True, safe_bias=True, forms=("indices", "indices", "indices", "blocks", "blocks", "eigvecs"))
     if tier == "thorough":
         kw.update(max_N=10, max_block_size=4)
-    nh = problems(tier, **kw).map(lambda p: dict(p, hermitian_input=False))
+    base = problems(tier, **kw)
+
+    @st.composite
+    def framed(draw):
+        # one third of the numeric problems are posed in an oblique lab frame: H_k = R T_k R^-1 with explicit
+        # biorthogonal (R_i, L_i) pairs instead of subspace_indices; half of those with Hermitian lab-frame perturbations
+        p = dict(draw(base), hermitian_input=False)
+        N = len(p["assign"])
+        if p["repr"] != "sympy" and N >= 2 and draw(st.integers(0, 2)) == 0:
+            shear = [[draw(st.integers(0, N - 1)), draw(st.integers(0, N - 1)), draw(st.sampled_from([1, -1, 2]))] for _ in range(draw(st.integers(1, 3)))]
+            p["frame"] = {"shear": shear, "lab_hermitian": draw(st.booleans())}
+        return p
+
+    nh = framed()
     herm = problems(tier, hermitian=True, safe_bias=True, **({"max_N": 10, "max_block_size": 4} if tier == "thorough" else {})).map(
         lambda p: dict(p, hermitian=False, hermitian_input=True)
     )
@@ -61,7 +76,17 @@ def in_k1_class(case):
 
 def check_case(case, enforce_all=False):
     out = Outcome()
+    frame = case.get("frame")
+    ham = kwargs = None
+    if frame:
+        R, _ = frame_matrices(frame, len(case["assign"]))
+        if np.array_equal(R, np.eye(len(R))):
+            frame = None
+    if frame:
+        case = frame_effective(case, frame)
+        ham, kwargs = frame_input(case, frame)
     out.labels = bd_checks.labels_for(case)
+    out.labels.append("frame=" + ("indices" if not frame else "oblique-pairs" + ("+lab-hermitian" if frame.get("lab_hermitian") else "")))
     unsafe = in_k1_class(case)
     out.labels.append("class=K1" if unsafe else "class=safe")
     if case.get("hermitian_input"):
@@ -70,7 +95,7 @@ def check_case(case, enforce_all=False):
         out.labels.append("complex-energies")
     if unsafe and not enforce_all:
         out.excluded.append("K1")
-    ctx = bd_checks.Ctx(case, out)
+    ctx = bd_checks.Ctx(case, out, ham, kwargs)
     if not ctx.ok:
         return out
     res = {}
